@@ -19,7 +19,7 @@ RULE = ("each run: generated well-formed input (sweep over root types / command 
 REAL = common.REAL_DECODER
 ASSUMPTIONS = ["a command/response stream may end cleanly after a command as well as after a response (both are message boundaries)",
                "a lone Response decode may report command_code None or the code it was given (relaxation 3)"]
-TIERS = {"quick": {"runs": 50000, "budget": 150}, "thorough": {"runs": 1000000, "budget": 780}}
+TIERS = {"quick": {"runs": 65000, "budget": 150}, "thorough": {"runs": 1000000, "budget": 780}}
 DOMAIN = ("depleted", "superfluous")
 
 
